@@ -3,9 +3,9 @@
 patch="$1"; shift
 cd /repo || exit 9
 if ! git diff --quiet -- src; then echo "REPO DIRTY, refusing"; exit 9; fi
-git apply --3way "$patch" 2>/dev/null || git apply "$patch" || { echo "PATCH DOES NOT APPLY"; git checkout -- . ; exit 8; }
+git apply "$patch" 2>/dev/null || git apply --3way "$patch" || { echo "PATCH DOES NOT APPLY"; git reset -q; git checkout -- . ; exit 8; }
 for p in "$@"; do
   VERIF_NO_EVIDENCE=1 VERIF_REPLAY_DIR=/tmp/seed_replay /venv/bin/python /verif/check.py "$p" --tier quick | grep -v "^VIOLATION" | cut -c1-400
   echo "== $p exit=$?"
 done
-git checkout -- . ; git reset -q; git status --short | grep -v '^??'
+git reset -q; git checkout -- . ; git status --short | grep -v '^??'
